@@ -24,9 +24,13 @@ MODULES = ["PanderaModel.Props.C12"]
 TEXTS = [None, None, "T", "plain title", "D d", "it's", 'say "hi"', "back\\slash", "tab\there", "ünï", "filter", "None",
          "a, b", "x=1", "#hash", "{brace}", "100%"]
 COLNAMES = ["a", "b", "c", "col one", "it's", 'q"uote', "ünï", "x.y", "0lead", "class", "None"]
-DTYPES = ["int64", "float64", "str", "bool", "datetime64[ns]", None]
+# parametrised dtypes share one engine class with their plain form (DateTime with / without a time zone, ...)
+DTYPES = ["int64", "float64", "str", "bool", "datetime64[ns]", "datetime64[ns, UTC]", "datetime64[ns, Europe/Berlin]", None]
 DATA = {"int64": [1, 2, 3], "float64": [1.0, 2.0, 3.0], "str": ["x", "y", "z"], "bool": [True, False, True],
-        "datetime64[ns]": list(pd.to_datetime(["2021-01-01", "2021-01-02", "2021-01-03"])), None: [1, 2, 3]}
+        "datetime64[ns]": list(pd.to_datetime(["2021-01-01", "2021-01-02", "2021-01-03"])),
+        "datetime64[ns, UTC]": list(pd.to_datetime(["2021-01-01", "2021-01-02", "2021-01-03"]).tz_localize("UTC")),
+        "datetime64[ns, Europe/Berlin]": list(pd.to_datetime(["2021-01-01", "2021-01-02", "2021-01-03"]).tz_localize("Europe/Berlin")),
+        None: [1, 2, 3]}
 BADV = {"int64": 100, "float64": 100.0, "str": "toolongvalue", None: 100}
 
 
@@ -73,6 +77,8 @@ def real_check(c):
 def gen_component(rng, name, for_index=False):
     dtype = rng.choice(DTYPES if not for_index else ["int64", "str", "float64", None])
     nchecks = rng.choice([0, 0, 1, 1, 2, 3]) if dtype != "bool" else rng.choice([0, 1])
+    if dtype is not None and dtype.startswith("datetime64[ns,"):
+        nchecks = 0
     checks, kinds = [], set()
     for _ in range(nchecks):
         c = gen_check(rng, dtype)
